@@ -1,4 +1,5 @@
 import Pms.Lemmas.Dyn
+import Mathlib.Tactic.IntervalCases
 
 /-!
 # C06 — relaxation functions (`PyMatterSim/dynamic/dynamics.py`)
@@ -221,6 +222,60 @@ theorem C06_wrapped_eq_unwrapped (rint : K → ℤ) (hr : IsRintHE rint) (cos : 
     dsimp only
     rw [l1, l2, l3, l4]
     rfl
+
+/-- the four-point structure factor: for every |q| shell, `sq4` returns the structure factor of the slow (or
+fast) subset — mobility judged between origin `o` and `o + n_t`, PBC removal / neighbour list / condition row /
+S(q) positions all of the ORIGIN frame — averaged over the shell and over all origins `o` with `o + n_t < T`;
+and the `q` column (summed and divided alongside) is returned unscaled -/
+theorem C06_sq4 (rint : K → ℤ) (cos sin : K → K) (X : Traj K) (Q : Sq4In K) (nt : ℕ) (members : List ℕ) :
+    Impl.sq4Shell rint cos sin X Q nt members = Spec.sq4Shell rint cos sin X Q nt members ∧
+    (nt < X.T → Impl.sq4QScale (α := K) X.T nt = 1) := by
+  have hcmp : Impl.sq4Cmp X = Spec.mobile X.fast := by
+    funext x c; unfold Impl.sq4Cmp Spec.mobile sq4Fast sq4Slow; cases X.fast <;> rfl
+  have hmask : ∀ n, Impl.sq4Mask rint X n nt = Spec.mobileMask rint X n (n + nt) := by
+    intro n; unfold Impl.sq4Mask Spec.mobileMask; rw [hcmp]; rfl
+  constructor
+  · unfold Impl.sq4Shell Spec.sq4Shell
+    rw [sq4Sum_eq, sumRange_eq]
+    simp only [hmask]
+    rfl
+  · intro h
+    unfold Impl.sq4QScale
+    rw [sq4Sum_eq]
+    have : ((X.T - nt : ℕ) : K) ≠ 0 := by
+      have : X.T - nt ≠ 0 := by omega
+      exact_mod_cast this
+    simp only [Finset.sum_const, Finset.card_range, nsmul_eq_mul, mul_one]
+    exact div_self this
+
+/-- the lag in frames: a time that is exactly k sampling intervals gives n_t = k (`round` = half-even `rint`) -/
+theorem C06_sq4_lag (rint : K → ℤ) (hr : IsRintHE rint) (X : Traj K) (k : ℕ) (h0 : time X 0 ≠ 0) :
+    Impl.sq4Lag rint X ((k : K) * time X 0) = k := by
+  unfold Impl.sq4Lag
+  rw [mul_div_cancel_right₀ _ h0]
+  have h1 := hr.add_int 0 (noTie_of_lt_half 0 (by norm_num)) (k : ℤ)
+  have h2 := hr.zero 0 (by norm_num)
+  rw [h2] at h1
+  simp only [zero_add, Int.cast_natCast] at h1
+  rw [h1]; simp
+
+/-- non-vacuity: the hypotheses of `C06_rows` / `C06_log` / `C06_wrapped_eq_unwrapped` are satisfiable
+(3-D, evenly spaced timesteps; a 1-D periodic cell of length 4 whose wrapped coordinates differ from the
+unwrapped ones by `f` cell lengths in frame `f`, with its inverse) -/
+example : ∃ X : Traj ℚ, (X.d = 2 ∨ X.d = 3) ∧ (∀ j, X.ts j = X.ts 0 + (j : ℚ) * 10) ∧ 2 + 1 < X.T :=
+  ⟨{ T := 5, N := 2, d := 3, pos := fun f i k => f + i + k, ts := fun j => 100 + j * 10, dt := 1/500,
+     diam := fun _ => 1, a := 3/10, qconst := 6, fast := false, pbc := false, H := fun _ _ _ => 0,
+     Hinv := fun _ _ _ => 0, ppp := fun _ => 0, cage := false, nb := fun _ _ => [], sel := fun _ _ => true },
+   Or.inr rfl, fun j => by ring, by decide⟩
+
+example : Pbc.IsInv (K := ℚ) 1 (fun _ _ => 4) (fun _ _ => 1/4) ∧ Pbc.IsInv (K := ℚ) 1 (fun _ _ => 1/4) (fun _ _ => 4) ∧
+    (∀ f i k : ℕ, ((f : ℚ) * 4) = 0 + Pbc.vecMul 1 (fun _ => ((f : ℤ) : ℚ) * 1) (fun _ _ => (4 : ℚ)) k) ∧
+    (∀ a < 1, |Pbc.frac 1 (fun _ _ => (1/4 : ℚ)) (fun _ => (0 : ℚ) - 0) a| < 1/2) := by
+  refine ⟨?_, ?_, ?_, ?_⟩
+  · intro i hi k hk; interval_cases i; interval_cases k; norm_num
+  · intro i hi k hk; interval_cases i; interval_cases k; norm_num
+  · intro f _ k; simp [Pbc.vecMul, sumRange]
+  · intro a ha; simp [Pbc.frac, Pbc.vecMul, sumRange]
 
 /-- every statement of the three routines, of `cage_relative` and of the two constructors that is not
 semantically regenerated is pinned as text: an edit anywhere in the anchored code reaches this obligation -/
